@@ -51,14 +51,21 @@ pub open spec fn seen(pc: &PeerCounter, seq: u64, hash: [u8; 32]) -> bool {
         && pc.sequence_history@[i].message_hash == hash
 }
 
-impl PeerCounter {
-    // ASSUMED here (iter().any(closure) is outside the Verus dialect); the same contract is
-    // PROVED on the real function by Kani harness c12_has_seen_contract (bounded history length).
-    #[verifier::external_body]
-    pub fn has_seen_sequence(&self, sequence: u64, message_hash: [u8; 32]) -> (r: bool)
-        ensures r == seen(self, sequence, message_hash)
-    { unimplemented!() }
-}
+// PeerCounter::has_seen_sequence is VERIFIED in this unit (extracted text) behind two std shims:
+// `v.iter().any(p)` and `==` on [u8; 32] (the extraction renames exactly those calls; contracts = documented
+// std behaviour, ASSUMED). The Kani harness c12_has_seen_contract re-checks the composed contract on the real
+// std code for short histories.
+/// `v.iter().any(p)`: true iff some element satisfies p (std docs)
+#[verifier::external_body]
+pub fn verif_iter_any<P: Fn(&SequenceEntry) -> bool>(v: &Vec<SequenceEntry>, p: P, Ghost(f): Ghost<spec_fn(SequenceEntry) -> bool>) -> (r: bool)
+    requires
+        forall|x: &SequenceEntry| #[trigger] call_requires(p, (x,)),
+        forall|x: &SequenceEntry, b: bool| #[trigger] call_ensures(p, (x,), b) ==> b == f(*x),
+    ensures r == exists|i: int| 0 <= i < v@.len() && f(#[trigger] v@[i]),
+{ unimplemented!() }
+/// `a == b` on [u8; 32]: byte-wise equality
+#[verifier::external_body]
+pub fn verif_arr_eq(a: &[u8; 32], b: &[u8; 32]) -> (r: bool) ensures r == (*a == *b) { unimplemented!() }
 
 // ASSUMED: the wall clock returns some second count below 2^48 (machine arithmetic on time
 // does not overflow: `current_time + 60`).
